@@ -134,6 +134,7 @@ static void run_case(const std::string &line) {
     for (int i = 0; i < ndev; i++) { char k[16]; snprintf(k, 16, "rx%d", i); if (kv.count(k)) n->ExtendReceiveMessages(plist(kv[k])->data(), i); }
     if (kv.count("ok") && kv["ok"] == "1") n->SetHandleOnlyKnownMessages(true);
     if (kv.count("iso")) { std::vector<unsigned long> *l = plist(kv["iso"]); g_iso_accept.assign(l->begin(), l->end() - 1); n->SetISORqstHandler(iso_handler); }
+    if (kv.count("noconf") && kv["noconf"] == "1") n->SetProgmemConfigurationInformation(0, 0, 0);   // no configuration information at all
     bool hb = kv.count("hb") && kv["hb"] == "1";
     n->SetMsgHandler(handle_msg);
     n->SetOnOpen(on_open);
